@@ -5,7 +5,7 @@
 #include <stdint.h>
 #include <stddef.h>
 #define CM_MAXB 4
-#define CM_MAXT 3
+#define CM_MAXT 8
 typedef struct { char id[24]; uint8_t value; } cm_aspect_t;
 typedef struct { uint8_t port, value; } cm_portval_t;
 typedef struct { char id[24]; int nports; cm_portval_t ports[3]; } cm_dccaspect_t;
